@@ -57,6 +57,9 @@ M = [
     ("C16-a", "C16", "pkg/controller/node_group.go", "\tcheckThat(nodegroup.TaintLowerCapacityThresholdPercent < nodegroup.TaintUpperCapacityThresholdPercent,\n\t\t\"taint_lower_capacity_threshold_percent must be less than taint_upper_capacity_threshold_percent\")\n", "", "lower<upper check deleted"),
     ("C16-b", "C16", "pkg/controller/node_group.go", "`json:\"fast_node_removal_rate,omitempty\"", "`json:\"fast_node_removal_rates,omitempty\"", "json tag typo"),
     ("C16-c", "C16", "cmd/main.go", "\t\tif len(errs) > 0 {\n\t\t\tlog.WithField(\"nodegroup\", nodegroup.Name).Error(\"Validating options: [FAIL]\")", "\t\tif len(errs) > 1 {\n\t\t\tlog.WithField(\"nodegroup\", nodegroup.Name).Error(\"Validating options: [FAIL]\")", "start-up gate tolerates one problem"),
+    ("C16-d", "C16", "cmd/main.go", "\t\t\t\tLifecycle:                 n.AWS.Lifecycle,\n", "", "aws.lifecycle not handed to the cloud provider"),
+    ("C16-e", "C16", "cmd/main.go", "\t\t\tGroupID: n.CloudProviderGroupName,", "\t\t\tGroupID: n.Name,", "cloud group id taken from the node group's name"),
+    ("C16-f", "C16", "cmd/main.go", "FleetInstanceReadyTimeout: n.AWS.FleetInstanceReadyTimeoutDuration(),", "FleetInstanceReadyTimeout: nodegroups[0].AWS.FleetInstanceReadyTimeoutDuration(),", "every group gets the first group's ready timeout"),
     ("C17-a", "C17", "pkg/cloudprovider/aws/aws.go", "return n.setASGDesiredSize(n.TargetSize() + delta)\n\n}", "return n.setASGDesiredSize(delta)\n\n}", "SetDesiredCapacity(delta)"),
     ("C17-b", "C17", "pkg/cloudprovider/aws/aws.go", "\tbatchSize = 20\n", "\tbatchSize = 21\n", "attach batches of 21"),
     ("C18-a", "C18", "pkg/cloudprovider/aws/aws.go", "\t\t\tterminate(n, append(instances, batch...))", "\t\t\tterminate(n, instances)", "failed batch forgotten"),
